@@ -33,6 +33,16 @@ Theorem C08_recovery_root_only : forall fixv, fix_ok fixv -> forall t t1 evs r,
 Proof. exact recovery_root_only. Qed.
 Print Assumptions C08_recovery_root_only.
 
+(* The recovery file on disk (two pickle flavours, .pckl preferred by load): whatever an earlier failure
+   left in the directory, after the save of a later failure exactly one flavour exists and a load returns
+   the image of THAT failure. *)
+Theorem C08_store_latest : forall s img,
+  store_read (store_save s img) = Some img /\
+  let s' := store_save s img in
+  (f_pckl s' = None /\ f_cpckl s' = Some img) \/ (f_pckl s' = Some img /\ f_cpckl s' = None).
+Proof. intros s img. split; [exact (store_latest s img)|exact (store_one_file s img)]. Qed.
+Print Assumptions C08_store_latest.
+
 (* (2) For EVERY graph with exactly one failing node (wherever it sits, at any depth): the first attempt
    raises and leaves one recovery image at the root; loading it, removing the cause, clearing the failure
    flags and running again returns, with every output equal to the uninterrupted twin's, and the
